@@ -104,7 +104,26 @@ func VerifC02Loops() {
 	it := iter(vrt.Choice("iter", vrt.Param("niter", NIter)))
 	vrt.Note("iterator", Src(it))
 	p.steps("init", false, asg("acc", node.List{}))
-	switch vrt.Choice("consumer", 10) {
+	switch vrt.Choice("consumer", 12) {
+	case 10: // loops inside closures whose iterator expression reads a captured variable; several
+		// closure instances run in one statement, so their generator contexts are recycled
+		p.steps("def", false,
+			asg("mkr", fn(lam(blk(asg("s", node.List{}), forl("i", call("fromto", ilit(0), nm("n")), asg("s", bin("+", nm("s"), node.List{Elems: []node.Type{nm("i")}}))), nm("s"))), "n")),
+			asg("ca", call("mkr", ilit(1+vrt.Choice("na", 3)))),
+			asg("cb", call("mkr", ilit(vrt.Choice("nb", 3)))),
+			asg("pl", fn(blk(asg("t", ilit(0)), forl("e", it, asg("t", bin("+", nm("t"), ilit(1)))), nm("t")))))
+		elems := []node.Type{call("ca"), call("cb"), call("ca")}
+		if vrt.Bool("plain-function-first") {
+			elems = append([]node.Type{call("pl")}, elems...)
+		}
+		p.Step(node.List{Elems: elems}, true, "closure-loops-in-one-statement")
+	case 11: // generators built by closures over a captured generator and function
+		p.steps("def", false,
+			asg("mg", fn(lam(forl("v", call("gen"), yld(call("f", nm("v"))))), "f", "gen")),
+			asg("dbl", fn(bin("*", nm("v"), ilit(2)), "v")),
+			asg("m1", call("mg", nm("inc"), nm("two"))),
+			asg("m2", call("mg", nm("dbl"), nm("cnttwo"))))
+		p.Step(blk(forl("e", call("m1"), call("write", nm("e"))), forl("e", it, call("write", nm("e"))), forl("e", call("m2"), call("write", nm("e"))), forl("e", call("m1"), call("write", nm("e")))), true, "captured-generators-in-one-statement")
 	case 9: // a loop nested in the body of a lock-step loop
 		p.Step(zipl("a", "b", pureIter(vrt.Choice("zip1", 5)), pureIter(vrt.Choice("zip2", 5)),
 			forl("c", it, call("write", node.List{Elems: []node.Type{nm("a"), nm("b"), nm("c")}}))), true, "loop-inside-lock-step-loop")
@@ -228,5 +247,84 @@ func VerifC03Pure() {
 	default:
 		p.Step(blk(asg("i", ilit(0)), whilel(bin("<", nm("i"), ilit(2)), blk(asg("r", call("f", nm("arg"))), asg("i", bin("+", nm("i"), ilit(1))))), nm("r")), true, "in-while-body")
 	}
+	vrt.Cover("done")
+}
+
+// loopNest builds nested for loops: every loop zips 1..3 iterators of 1..2 elements, and the body
+// of an outer loop holds the next level directly or inside a block / conditional / counted while,
+// or twice in sequence. The innermost body records the loop variables of all levels.
+func loopNest(level, max int, vars []string, userGen bool) node.Type {
+	if level == max {
+		l := node.List{}
+		for _, v := range vars {
+			l.Elems = append(l.Elems, nm(v))
+		}
+		return asg("acc", bin("+", nm("acc"), node.List{Elems: []node.Type{l}}))
+	}
+	ar := 1 + vrt.Choice("iterators", vrt.Param("zipmax", 3))
+	f := node.For{}
+	for i := 0; i < ar; i++ {
+		v := string(rune('a'+level)) + string(rune('0'+i))
+		vars = append(vars, v)
+		f.VarRefs.Elems = append(f.VarRefs.Elems, nm(v))
+		n := 2
+		if i == ar-1 {
+			n = 1 + vrt.Choice("elements-of-last", 2)
+		}
+		if userGen {
+			f.Iterators.Elems = append(f.Iterators.Elems, call("cnt", ilit(n)))
+		} else {
+			f.Iterators.Elems = append(f.Iterators.Elems, call("fromto", ilit(0), ilit(n)))
+		}
+	}
+	inner := loopNest(level+1, max, vars, userGen)
+	if level == max-1 {
+		f.Body = inner
+		return f
+	}
+	switch vrt.Choice("placement", 5) {
+	case 0:
+		f.Body = inner
+	case 1:
+		f.Body = blk(asg("t", ilit(0)), inner)
+	case 2:
+		f.Body = node.If{Condition: node.Bool(true), TrueCase: inner}
+	case 3:
+		f.Body = blk(asg("w", ilit(0)), whilel(bin("<", nm("w"), ilit(1)), blk(asg("w", bin("+", nm("w"), ilit(1))), inner)))
+	default:
+		f.Body = blk(inner, inner)
+	}
+	return f
+}
+
+func loopNestProg() (defs []node.Type, prog node.Type) {
+	nest := loopNest(0, 2+vrt.Choice("levels", vrt.Param("levels", 1)), nil, vrt.Bool("user-generator"))
+	defs = []node.Type{asg("cnt", fn(blk(asg("i", ilit(0)), whilel(bin("<", nm("i"), nm("n")), blk(yld(nm("i")), asg("i", bin("+", nm("i"), ilit(1)))))), "n"))}
+	if vrt.Bool("inside-function") {
+		return defs, blk(asg("f", fn(blk(asg("acc", node.List{}), nest, nm("acc")))), call("f"))
+	}
+	return defs, blk(asg("acc", node.List{}), nest, nm("acc"))
+}
+
+// VerifC02LoopNest: nested and lock-step loops visit exactly the combinations the reference does.
+func VerifC02LoopNest() {
+	p := NewPair()
+	defs, prog := loopNestProg()
+	vrt.Note("program", Src(prog))
+	p.steps("defs", false, defs...)
+	p.Step(prog, true, "loop-nest")
+	vrt.Cover("done")
+}
+
+// VerifC05LoopNest: no nesting of loops crashes the interpreter.
+func VerifC05LoopNest() {
+	s := New()
+	defs, prog := loopNestProg()
+	vrt.Note("program", Src(prog))
+	for _, d := range defs {
+		s.Run(d, false)
+	}
+	_, err := s.Run(prog, true)
+	vrt.Assert(Class(err) != EOther, "outcome-is-value-or-documented-error")
 	vrt.Cover("done")
 }
